@@ -155,7 +155,7 @@ class Interp:
         return r
 
     # ------------------------------------------------------------ function
-    def summarise(self, fname, argterms=None, boolmem=()):
+    def summarise(self, fname, argterms=None, boolmem=(), unroll=True):
         self.boolmem = set(boolmem)
         f = self.m["functions"][fname]
         S = Summary()
@@ -183,17 +183,28 @@ class Interp:
                 s = [c[1] for c in t["cases"]] + [t["default"]]
             succ[b["id"]] = s
         order, loop = _topo(nb, succ)
-        if loop:
+        loops = None
+        if loop and unroll:
+            loops = _natural_loops(nb, succ, order)
+        if loop and loops is None:
             S.flags.add("loop")
         vals = {}
         bcond = {0: T.const(1, 1)}
         econd = {}   # (from, to) -> cond
-        mem_writes = []  # (base, off, size, value, cond)
         self._S = S
         self._vals = vals
         self._args = args
         bmap = {b["id"]: b for b in blocks}
-        for bid in order:
+        opaque_phis = loop and loops is None
+        defblock = {}
+        for b in blocks:
+            for ins in b["insts"]:
+                if "id" in ins:
+                    defblock[ins["id"]] = b["id"]
+
+        def do_block(bid, phi_from=None):
+            """interpret one block.  phi_from: None = every incoming edge seen so far; a set = only those
+            predecessors; 'preset' = phi values were already assigned (loop header, iteration >= 1)"""
             b = bmap[bid]
             if bid not in bcond:
                 inc = [econd[(p, bid)] for p in range(nb) if (p, bid) in econd]
@@ -209,21 +220,29 @@ class Interp:
                 S.ninst += 1
                 opn = ins["op"]
                 if opn == "phi":
-                    if loop:
+                    if opaque_phis:
                         vals[ins["id"]] = T.opaque(ins["t"].get("bits", 64), "phi-loop%d" % ins["id"])
+                        continue
+                    if phi_from == "preset":
                         continue
                     r = None
                     incs = ins["inc"]
+                    if phi_from is not None:
+                        incs = [(v, pb) for v, pb in incs if pb in phi_from]
                     # build select chain; last incoming is the default
                     for v, pb in reversed(incs):
-                        tv = self.val(v)
                         ec = econd.get((pb, bid))
+                        if ec is None and loops is not None:
+                            continue        # edge never taken (so far)
+                        tv = self.val(v)
                         if r is None:
                             r = tv
                         elif ec is None:
                             continue
                         else:
                             r = T.select(ec, tv, r)
+                    if r is None:
+                        r = T.undef(ins["t"].get("bits", 64)) if hasattr(T, "undef") else T.const(ins["t"].get("bits", 64), 0)
                     vals[ins["id"]] = r
                     continue
                 if opn == "br":
@@ -261,7 +280,85 @@ class Interp:
                 r = self.inst(ins, cond)
                 if r is not None:
                     vals[ins["id"]] = r
-        if loop and S.ret is not None:
+
+
+        def do_loop(h):
+            """unroll the natural loop with header h until its back-edge condition normalises to false"""
+            body = loops[h]
+            border = [b for b in order if b in body]
+            outside = {p for p in range(nb) if p not in body}
+            snaps = []
+            k = 0
+            while True:
+                if k == 0:
+                    run_seq(border, h, outside)
+                else:
+                    run_seq(border, h, "preset")
+                snaps.append(({i: vals[i] for i, db in defblock.items() if db in body and i in vals},
+                              {b: bcond.get(b, T.const(1, 0)) for b in body}))
+                back = [(p, econd[(p, h)]) for p in sorted(body) if (p, h) in econd]
+                bc = T.const(1, 0)
+                for p, c in back:
+                    bc = T.or_(bc, c)
+                if bc[0] == "const" and bc[2] == 0:
+                    break
+                k += 1
+                if k > MAX_UNROLL:
+                    raise _NoUnroll("loop at block %d: back edge still feasible after %d iterations" % (h, MAX_UNROLL))
+                # header phis of the next iteration, computed from this iteration's values before anything is overwritten
+                newphi = {}
+                for ins in bmap[h]["insts"]:
+                    if ins["op"] != "phi":
+                        continue
+                    r = None
+                    for v, pb in reversed(ins["inc"]):
+                        if pb not in body or (pb, h) not in econd:
+                            continue
+                        tv = self.val(v)
+                        r = tv if r is None else T.select(econd[(pb, h)], tv, r)
+                    newphi[ins["id"]] = r
+                for key in [e for e in econd if e[0] in body and e[1] in body]:
+                    del econd[key]
+                for b in body:
+                    bcond.pop(b, None)
+                bcond[h] = bc
+                vals.update(newphi)
+                S.flags.add("unrolled")
+            # a value defined in the loop and used after it: the value of the last iteration that executed its block
+            for i in snaps[0][0].keys() | (snaps[-1][0].keys() if snaps else set()):
+                m = None
+                for sv, sb in snaps:
+                    if i not in sv:
+                        continue
+                    c = sb[defblock[i]]
+                    if m is None:
+                        m = sv[i]
+                    elif c[0] == "const" and c[2] == 0:
+                        continue
+                    else:
+                        m = T.select(c, sv[i], m)
+                if m is not None:
+                    vals[i] = m
+            S.unrolled = max(getattr(S, "unrolled", 0), k + 1)
+
+        def run_seq(seq, loop_header=None, header_phi=None):
+            skipped = set()
+            for bid in seq:
+                if bid in skipped:
+                    continue
+                if loops and bid in loops and bid != loop_header:
+                    do_loop(bid)            # every iteration of the (inner) loop; its blocks are done
+                    skipped |= loops[bid]
+                    continue
+                do_block(bid, header_phi if bid == loop_header else None)
+
+        try:
+            run_seq(order)
+        except _NoUnroll as ex:
+            S2 = self.summarise(fname, argterms, boolmem, unroll=False)
+            S2.flags.add("unroll-failed")
+            return S2
+        if loop and loops is None and S.ret is not None:
             S.ret = T.opaque(S.ret[1], "loop-result", S.ret)
         return S
 
@@ -676,6 +773,54 @@ class Interp:
             return T.opaque(bits, "intr:" + base, *args) if bits else None
         S.flags.add("unknown-effect")
         return T.opaque(bits, "intr:" + base, *args) if bits else None
+
+
+MAX_UNROLL = 72
+
+
+class _NoUnroll(Exception):
+    pass
+
+
+def _natural_loops(nb, succ, order):
+    """header -> set of body blocks for a reducible CFG (None otherwise)"""
+    pos = {b: i for i, b in enumerate(order)}
+    pred = {}
+    for a, ss in succ.items():
+        if a not in pos:
+            continue
+        for s_ in ss:
+            pred.setdefault(s_, set()).add(a)
+    # dominators (iterative, RPO)
+    dom = {order[0]: {order[0]}}
+    allb = set(order)
+    for b in order[1:]:
+        dom[b] = set(allb)
+    changed = True
+    while changed:
+        changed = False
+        for b in order[1:]:
+            ps = [dom[p] for p in pred.get(b, ()) if p in dom]
+            nd = set.intersection(*ps) if ps else set()
+            nd = nd | {b}
+            if nd != dom[b]:
+                dom[b] = nd
+                changed = True
+    loops = {}
+    for a in order:
+        for h in succ.get(a, ()):
+            if h in pos and pos[h] <= pos[a]:
+                if h not in dom[a]:
+                    return None         # retreating edge that is not a back edge: irreducible
+                body = loops.setdefault(h, {h})
+                stack = [a]
+                while stack:
+                    x = stack.pop()
+                    if x in body:
+                        continue
+                    body.add(x)
+                    stack.extend(p for p in pred.get(x, ()) if p in pos)
+    return loops
 
 
 def _addedge(econd, a, b, c):
